@@ -59,7 +59,14 @@ func c07Scenario(p c07Params) Scenario {
 		o = &c07Obs{s: s}
 		// warm-up of the same kind on another fid, so that the reply buffer the target
 		// receives last carried the matching R-type
-		wm := s.prepare(p.Kind, 60, s.tag())
+		var wm *wire.Msg
+		if p.Kind == "remove" {
+			// (another file than the target's: the warm-up is carried out)
+			s.rpcOK(twalk(s.tag(), 0, 60, "g"), wire.Rwalk)
+			wm = &wire.Msg{Type: wire.Tremove, Tag: s.tag(), Fid: 60}
+		} else {
+			wm = s.prepare(p.Kind, 60, s.tag())
+		}
 		if p.Kind == "attach" {
 			wm.Fid = 61
 		}
@@ -69,6 +76,9 @@ func c07Scenario(p c07Params) Scenario {
 		if p.Gated {
 			gate = vs.NewSem(0)
 			s.fs.Script[reqKey{0, tTag, 0}] = &Action{Gate: gate}
+		}
+		if p.Stage == "saved" {
+			s.fs.Script[reqKey{0, tTag, 0}] = &Action{Silent: true}
 		}
 		var gate0 *vs.Sem
 		var older *wire.Msg
@@ -104,6 +114,13 @@ func c07Scenario(p c07Params) Scenario {
 		case "unknown":
 			o.flushTag = []uint16{fTag}
 			s.c.Send(p.Dotu, o.target, flush(fTag, 555))
+		case "saved":
+			// the implementation's operation has returned without answering (it kept the
+			// request to answer later); then the request is flushed
+			o.flushTag = []uint16{fTag}
+			s.c.Send(p.Dotu, o.target)
+			vs.Idle()
+			s.c.Send(p.Dotu, flush(fTag, tTag))
 		case "executing":
 			o.flushTag = []uint16{fTag}
 			s.c.Send(p.Dotu, o.target)
@@ -189,6 +206,20 @@ func c07Scenario(p c07Params) Scenario {
 			case "open", "create":
 				if r := probe(twalk(200, 10, 120)); r == nil || r.Type != wire.Rwalk {
 					o.probeErr = "cancelled " + p.Kind + " changed the fid's open state"
+				}
+			}
+			if p.Stage == "saved" && o.probeErr == "" && p.Kind != "attach" && p.Kind != "clunk" && p.Kind != "remove" {
+				// the cancelled request holds nothing any more: clunking its fid gives the fid
+				// up (the implementation is told, the number is free again)
+				tokBefore := len(s.fs.destroyed)
+				if r := probe(&wire.Msg{Type: wire.Tclunk, Tag: 201, Fid: 10}); r == nil || r.Type != wire.Rclunk {
+					o.probeErr = "fid of a cancelled " + p.Kind + " cannot be clunked"
+				} else if r := probe(&wire.Msg{Type: wire.Tstat, Tag: 202, Fid: 10}); !isErr(r, "unknown fid") {
+					o.probeErr = "fid of a cancelled " + p.Kind + " survives its Tclunk"
+				} else if len(s.fs.destroyed) != tokBefore+1 {
+					o.probeErr = "the implementation was not told that the clunked fid of a cancelled " + p.Kind + " is gone"
+				} else if r := probe(twalk(203, 0, 10)); r == nil || r.Type != wire.Rwalk {
+					o.probeErr = "fid number of a cancelled " + p.Kind + " is not free after its Tclunk"
 				}
 			}
 		}
@@ -524,6 +555,9 @@ func c07Scenarios(tier string) []Scenario {
 		P = 3
 	}
 	i := 0
+	for i, k := range c07Kinds {
+		add(c07Params{Kind: k, Stage: "saved", FlushMode: "cancel", Maxpend: i % 3, Dotu: i%2 == 0, P: 2})
+	}
 	for _, k := range c07Kinds {
 		i++
 		dotu := i%2 == 0
